@@ -200,7 +200,7 @@ def callers(chk, P0, fams, overlays):
                     chk.note("OPTCHAR undecided at %s: %s" % (site, sx_str(a[ppos])))
                     continue
                 chk.judge(val in valid, "OPTCHAR", key, site, "%s%s is given TRANS='%s'; it accepts only %s" % (k, stem, chr(val), sorted(chr(v) for v in valid)))
-    chk.judge(n >= 16, "OPTCHAR", "orthogonal/unitary-factor-call-sites>=16", "", "%d instantiated call sites with a flavour-dependent option" % n)
+    chk.shape(n >= 16, "OPTCHAR", "orthogonal/unitary-factor-call-sites>=16", "", "%d instantiated call sites with a flavour-dependent option" % n)
     # default tolerance
     for cls in ("SimTK::FactorQTZ", "SimTK::FactorSVD"):
         sib = []
